@@ -35,7 +35,7 @@ shutil.rmtree(har + "/src", ignore_errors=True)
 shutil.copytree("/verif/harness/src", har + "/src")
 shutil.rmtree(har + "/.cargo", ignore_errors=True)
 shutil.copytree("/verif/harness/.cargo", har + "/.cargo")
-env = dict(os.environ, VERIF_HARNESS_DIR=har, VERIF_WORK_DIR=base + "/work", VERIF_EVID_DIR=base + "/evidence")
+env = dict(os.environ, VERIF_REPO_DIR=repo, VERIF_HARNESS_DIR=har, VERIF_WORK_DIR=base + "/work", VERIF_EVID_DIR=base + "/evidence")
 for c in checks:
     p = subprocess.run(["/verif/check", c, "--tier", "quick"], cwd="/verif", env=env, stdout=subprocess.PIPE, stderr=subprocess.STDOUT, text=True)
     viol = [l for l in p.stdout.splitlines() if l.startswith("VIOLATION")]
